@@ -194,6 +194,13 @@ class SignTable:
                 eff["reply"] = ("ReportState", "own-address" if addr_ok else fmt_term(m[4][0]), stv)
             elif m[3] == "AckOperation":
                 o = m[4][1]
+                if o[0] != "adt":
+                    # the operation is passed through as a value: which one it is follows from the path's tests on it
+                    dk = p.cons.get(("discr", o))
+                    if dk is not None and dk[0] == "in" and len(dk[1]) == 1:
+                        vv = self.ev.variant_by_discr("flipdot_core::message::Operation", next(iter(dk[1])))
+                        if vv:
+                            o = ("adt", "flipdot_core::message::Operation", vv["idx"], vv["name"], ())
                 eff["reply"] = ("AckOperation", "own-address" if addr_ok else fmt_term(m[4][0]), o[3] if o[0] == "adt" else fmt_term(o))
             else:
                 eff["reply"] = ("other", fmt_term(m))
@@ -485,6 +492,10 @@ def compare_tables(chk, tab, rule, tag=""):
                 mism.setdefault(("panic", fv["kind"], fv.get("op"), str(eff["panic"])), []).append((fv, eff, want))
                 continue
             got = eff_project(eff)
+            if fv.get("pending_empty") is True and got.get("pending") == "cleared" and want.get("pending") == "unchanged":
+                got = dict(got, pending="unchanged")       # clearing (or taking) a buffer known to be empty changes nothing
+            if fv.get("pending_empty") is True and {got.get("pending"), want.get("pending")} == {"set", "append"}:
+                got = dict(got, pending=want.get("pending"))  # appending the chunk to an empty buffer == replacing the buffer by it
             if got != want or any(k in eff for k in ("address", "flip_style")):
                 diff = tuple(sorted(k for k in want if got.get(k) != want[k])) + tuple(k for k in ("address", "flip_style") if k in eff)
                 mism.setdefault(("diff", fv["kind"], fv.get("op"), diff, tuple((k, str(got.get(k))) for k in diff)), []).append((fv, got, want))
